@@ -108,6 +108,7 @@ package netpoll
 //@   requires activeConn >= 0
 //@   ensures result
 //@   ensures (activeConn == old(activeConn) && shClosed == old(shClosed) + 1) || (activeConn == old(activeConn) + 1 && shClosed == old(shClosed))
+//@   ensures activeConn == old(activeConn) + 1 ==> as(value, *connection).keychain[closing] == old(as(value, *connection).keychain[closing])
 //@   modifies world, key:cell:int, shClosed, idleUnlocked
 //@   ghost before call invoke.Close#1: assert !typeis(value, *connection) || idleUnlocked
 //@   ghost before call invoke.Close#1: shClosed = shClosed + 1
